@@ -235,6 +235,10 @@ func c20Gen(t *rapid.T) C20Case {
 				// container's metadata: the statement makes no exception for it.
 				k = rapid.SampledFrom([]string{"container.name", "container-id", "container/image", "container state", "container.image.id", "container_name", "container.status", "container command", "container"}).Draw(t, "builtin-key")
 			}
+			if rapid.IntRange(0, 7).Draw(t, "attribute-key") == 0 {
+				// Keys spelled like the daemon's own container attributes and list filters.
+				k = rapid.SampledFrom([]string{"id", "name", "image", "status", "label", "ancestor", "state", "names"}).Draw(t, "attribute-keyname")
+			}
 			name := refKeyToLabel(k)
 			// Soundness: names that cannot be written in a selector are outside the statement.
 			if !logqlKeywords[name] && name != "msg" {
